@@ -83,3 +83,105 @@ UNITS = [
     Unit('C20_scalar', 'C20', [rbf_new, rq_new, rbf_f, rq_f], types=TYPES20, spec=SPEC20, preludes=PRE, broadcast=BC, level='L1',
          notes='scalar RBF and rational-quadratic kernels equal the textbook forms; symmetry, k(x,x)=var, 0<k<=var as lemmas'),
 ]
+
+# ---------------------------------------------------------------- binomial coefficient: exact integer arithmetic (no floats)
+BINOM_SPEC = r'''
+pub open spec fn binom(n: nat, k: nat) -> nat decreases n
+{ if k == 0 { 1 } else if n == 0 { 0 } else { binom((n - 1) as nat, (k - 1) as nat) + binom((n - 1) as nat, k) } }
+
+pub proof fn lemma_binom_zero(n: nat, k: nat) requires k > n ensures binom(n, k) == 0 decreases n
+{ if n > 0 { lemma_binom_zero((n - 1) as nat, (k - 1) as nat); lemma_binom_zero((n - 1) as nat, k); } }
+
+pub proof fn lemma_binom_nn(n: nat) ensures binom(n, n) == 1 decreases n
+{ if n > 0 { lemma_binom_nn((n - 1) as nat); lemma_binom_zero((n - 1) as nat, n); } }
+
+/// k * C(n,k) == n * C(n-1,k-1)
+pub proof fn lemma_absorb(n: nat, k: nat) requires n >= 1, k >= 1
+    ensures k * binom(n, k) == n * binom((n - 1) as nat, (k - 1) as nat) decreases n
+{
+    let a = binom((n - 1) as nat, (k - 1) as nat);
+    let b = binom((n - 1) as nat, k);
+    assert(binom(n, k) == a + b);
+    if n == 1 {
+        if k == 1 { assert(b == 0); assert(a == 1); } else { lemma_binom_zero(0, k); lemma_binom_zero(0, (k - 1) as nat); }
+        assert(k * (a + b) == n * a) by(nonlinear_arith) requires n == 1, (k == 1 && a == 1 && b == 0) || (a == 0 && b == 0);
+    } else if k == 1 {
+        // 1*C(n,1) = n*C(n-1,0) = n ; b = C(n-1,1) = n-1 by IH
+        lemma_absorb((n - 1) as nat, 1);
+        assert(a == 1);
+        assert(binom((n - 2) as nat, 0) == 1);
+        assert(1 * b == (n - 1) * 1) ;
+        assert(k * (a + b) == n * a) by(nonlinear_arith) requires k == 1, a == 1, b == n - 1;
+    } else {
+        lemma_absorb((n - 1) as nat, k);         // k*b == (n-1)*C(n-2,k-1)
+        lemma_absorb((n - 1) as nat, (k - 1) as nat);   // (k-1)*a == (n-1)*C(n-2,k-2)
+        let c = binom((n - 2) as nat, (k - 1) as nat);
+        let d = binom((n - 2) as nat, (k - 2) as nat);
+        assert(a == d + c);
+        assert(k * (a + b) == n * a) by(nonlinear_arith) requires k * b == (n - 1) * c, (k - 1) * a == (n - 1) * d, a == d + c, k >= 2, n >= 2;
+    }
+}
+
+/// (n-k) * C(n,k) == n * C(n-1,k)
+pub proof fn lemma_absorb2(n: nat, k: nat) requires n >= 1, k <= n
+    ensures (n - k) * binom(n, k) == n * binom((n - 1) as nat, k)
+{
+    if k == 0 { assert(binom(n, 0) == 1); assert(binom((n - 1) as nat, 0) == 1); }
+    else {
+        lemma_absorb(n, k);
+        let a = binom((n - 1) as nat, (k - 1) as nat);
+        let b = binom((n - 1) as nat, k);
+        assert(binom(n, k) == a + b);
+        assert((n - k) * (a + b) == n * b) by(nonlinear_arith) requires k * (a + b) == n * a, k <= n;
+    }
+}
+
+/// i * C(n,i) == (n-i+1) * C(n,i-1)
+pub proof fn lemma_step(n: nat, i: nat) requires 1 <= i <= n
+    ensures i * binom(n, i) == (n - i + 1) * binom(n, (i - 1) as nat)
+{
+    lemma_absorb(n, i);
+    lemma_absorb2(n, (i - 1) as nat);
+}
+
+pub proof fn lemma_sym(n: nat, k: nat) requires k <= n ensures binom(n, k) == binom(n, (n - k) as nat) decreases n
+{
+    if k == 0 { lemma_binom_nn(n); } else if k == n { lemma_binom_nn(n); }
+    else {
+        lemma_sym((n - 1) as nat, (k - 1) as nat);
+        lemma_sym((n - 1) as nat, k);
+        assert(binom(n, k) == binom((n - 1) as nat, (k - 1) as nat) + binom((n - 1) as nat, k));
+        assert(binom(n, (n - k) as nat) == binom((n - 1) as nat, (n - k - 1) as nat) + binom((n - 1) as nat, (n - k) as nat));
+    }
+}
+
+/// C(n,i-1) <= C(n,i) while 2i <= n+1
+pub proof fn lemma_mono(n: nat, i: nat) requires 1 <= i, 2 * i <= n + 1
+    ensures binom(n, (i - 1) as nat) <= binom(n, i)
+{
+    lemma_step(n, i);
+    let x = binom(n, i); let y = binom(n, (i - 1) as nat);
+    assert(y <= x) by(nonlinear_arith) requires i * x == (n - i + 1) * y, n - i + 1 >= i, i >= 1;
+}
+pub proof fn lemma_mono_chain(n: nat, i: nat, j: nat) requires i <= j, 2 * j <= n + 1
+    ensures binom(n, i) <= binom(n, j) decreases j - i
+{
+    if i < j { lemma_mono_chain(n, i, (j - 1) as nat); lemma_mono(n, j); }
+}
+pub proof fn lemma_binom_pos(n: nat, k: nat) requires k <= n ensures binom(n, k) >= 1 decreases n
+{ if k > 0 && n > 0 { if k <= n - 1 { lemma_binom_pos((n - 1) as nat, k); } else { lemma_binom_pos((n - 1) as nat, (k - 1) as nat); } } }
+
+'''
+binom_coeff = Fn('functions::combinatorial::binom_coeff', ret='r', level='int',
+                 requires=['C17.binom.domain:: k <= n', 'C17.binom.fits:: binom(n as nat, k as nat) <= u64::MAX'],
+                 ensures=['C17.binom.exact:: r == binom(n as nat, k as nat)'],
+                 rewrites=[('std::u64::MAX', 'u64::MAX', 'R9: `std::u64::MAX` is the deprecated alias of the associated constant `u64::MAX`'),
+                           ('let mut c = 1;', 'let mut c: u64 = 1;', 'R4c: integer literal given the type rustc infers for it (u64, from `c / i` with i: u64)')],
+                 hints=[('let mut c: u64 = 1;', 'before', 'proof { lemma_sym(n as nat, k as nat); }')],
+                 loops={1: {'invariant': ['2 * nk <= n', 'binom(n as nat, k as nat) == binom(n as nat, nk as nat)', 'binom(n as nat, nk as nat) <= u64::MAX',
+                                          'C17.binom.prefix:: c == binom(n as nat, (i - 1) as nat)'],
+                            'body_ghost': 'let ghost bi = binom(n as nat, i as nat) as int; let ghost bn = binom(n as nat, nk as nat) as int; let ghost q = c as int / i as int; let ghost r = c as int % i as int; let ghost t = (n - i + 1) as int; let ghost mx = u64::MAX as int;',
+                            'body_start': 'lemma_step(n as nat, i as nat);\n            lemma_mono_chain(n as nat, i as nat, nk as nat);\n            assert(bi <= bn <= mx);\n            assert(c as int == q * i + r && 0 <= r < i) by { vstd::arithmetic::div_mod::lemma_fundamental_div_mod(c as int, i as int); vstd::arithmetic::div_mod::lemma_mod_bound(c as int, i as int); }\n            assert(q >= 0) by { vstd::arithmetic::div_mod::lemma_div_pos_is_pos(c as int, i as int); }\n            assert(i * bi == t * c);\n            assert(r * t == i * (bi - q * t)) by(nonlinear_arith) requires i * bi == t * c, c == q * i + r;\n            vstd::arithmetic::div_mod::lemma_div_multiples_vanish(bi - q * t, i as int);\n            assert((i * (bi - q * t)) / (i as int) == bi - q * t) by { vstd::arithmetic::mul::lemma_mul_is_commutative(i as int, bi - q * t); }\n            assert(q * t + (r * t) / (i as int) == bi);\n            assert(bi - q * t >= 0) by(nonlinear_arith) requires r * t == i * (bi - q * t), r >= 0, t >= 0, i > 0;\n            assert(0 <= q * t <= bi) by(nonlinear_arith) requires bi - q * t >= 0, q >= 0, t >= 0;\n            assert(r * t <= mx) by {\n                if i >= 2 {\n                    lemma_mono_chain(n as nat, 2, i as nat);\n                    lemma_step(n as nat, 1); lemma_step(n as nat, 2);\n                    assert(binom(n as nat, 0) == 1);\n                    let b2 = binom(n as nat, 2) as int; let b1 = binom(n as nat, 1) as int;\n                    assert(2 * b2 == n * (n - 1)) by(nonlinear_arith) requires 1 * b1 == (n - 1 + 1) * 1, 2 * b2 == (n - 2 + 1) * b1;\n                    assert(2 * (r * t) <= n * (n - 1)) by(nonlinear_arith) requires 0 <= r <= i - 1, t == n - i + 1, 2 * i <= n, i >= 2;\n                } else { assert(r == 0); assert(r * t == 0) by(nonlinear_arith) requires r == 0; }\n            }\n            // guard is false\n            vstd::arithmetic::div_mod::lemma_fundamental_div_mod(mx, nk as int);\n            vstd::arithmetic::div_mod::lemma_mod_bound(mx, nk as int);\n            assert(q * nk <= q * t) by(nonlinear_arith) requires t >= nk, q >= 0;\n            assert(q <= mx / (nk as int)) by(nonlinear_arith) requires q * nk <= mx, mx == (nk as int) * (mx / (nk as int)) + mx % (nk as int), 0 <= mx % (nk as int) < nk, nk > 0, q >= 0;'}})
+UNITS.append(Unit('C17_binom', 'C17', [binom_coeff], spec=BINOM_SPEC, preludes=('fax_l0', 'fmeth', 'stdspec'), broadcast=('l0',), level='int',
+                  notes='binom_coeff returns exactly C(n,k) (Pascal-rule definition) for every 0 <= k <= n whose value fits in 64 bits: no intermediate overflow, '
+                        'the overflow guard never fires on such inputs; symmetry and the absorption identities are lemmas over the definition'))
